@@ -66,6 +66,10 @@ def catalogue_c05(tier):
         cs.append(case('c05/%s/unsub-vs-items' % nm, root, [items(1, 3), [{'op': 'unsub', 'u': 1}]]))
         if nm == 'merge' or tier == 'thorough':
             cs.append(case('c05/%s/unsub-vs-2-emitters' % nm, root, [items(1, 2), items(2 if nm == 'merge' else 1, 2), [{'op': 'unsub', 'u': 1}]]))
+    # a source that emits from its own thread and holds on to the observer it was given (it never polls is_subscribed())
+    ac = T('acold', 1, scripts=[[{'k': 'n', 'v': 10 + i} for i in range(1, 5)]])
+    cs.append(case('c05/acold-direct/unsub-vs-items', ac, [[{'op': 'unsub', 'u': 1}]]))
+    cs.append(case('c05/acold-map/unsub-vs-items', T('map', 0, 'inc', ins=[ac]), [[{'op': 'unsub', 'u': 1}]]))
     for kind in ['behavior', 'replay']:
         cs.append(case('c05/subject-%s/unsub-vs-items' % kind, S(1), [items(1, 3), [{'op': 'unsub', 'u': 1}]], sbj=[kind]))
     return cs
@@ -102,6 +106,7 @@ def catalogue_c12(tier):
         cs.append(case('c12/%s/2producers-stable' % kind, S(1), [items(1, 2), P2], sbj=[kind], tags=tg + ['producers:2']))
         cs.append(case('c12/%s/producer-vs-latesub' % kind, S(1), [items(1, 3), [{'op': 'sub', 'u': 2}]], sbj=[kind], tags=tg + ['producers:1', 'latesub:2']))
         cs.append(case('c12/%s/producer-vs-unsub' % kind, S(1), [items(1, 3), [{'op': 'unsub', 'u': 1}]], sbj=[kind], tags=tg + ['producers:1', 'unsub:1']))
+        cs.append(case('c12/%s/sub-vs-unsub-then-items' % kind, S(1), [[{'op': 'sub', 'u': 2}], [{'op': 'unsub', 'u': 1}]], sbj=[kind], post=items(1, 2), tags=tg + ['producers:1', 'latesub:2', 'unsub:1']))
         if tier == 'thorough':
             cs.append(case('c12/%s/2producers-latesub' % kind, S(1), [items(1, 2), P2, [{'op': 'sub', 'u': 2}]], sbj=[kind], tags=tg + ['producers:2', 'latesub:2']))
             cs.append(case('c12/%s/producer-latesub-unsub' % kind, S(1), [items(1, 3), [{'op': 'sub', 'u': 2}], [{'op': 'unsub', 'u': 1}]], sbj=[kind], tags=tg + ['producers:1', 'latesub:2', 'unsub:1']))
